@@ -4,7 +4,10 @@
 //! usage: mb2-harness <casefile> [--skip N] [--place start|end]
 //! Output: for each case `#<index>` (flushed before the case runs, so that a
 //! process-killing fault is attributed to it), then its transcript lines.
+mod alloc_track;
 mod args;
+#[cfg(feature = "builder")]
+mod dom_build;
 mod dom_cast;
 mod dom_common;
 mod dom_hdr;
@@ -16,6 +19,9 @@ use std::panic::{catch_unwind, AssertUnwindSafe};
 
 pub use args::{hexs, Arg};
 pub use mem::Guarded;
+
+#[global_allocator]
+static ALLOCATOR: alloc_track::Tracker = alloc_track::Tracker;
 
 pub struct Ctx {
     pub out: Vec<String>,
@@ -47,6 +53,11 @@ fn run_case(ctx: &mut Ctx, dom: &str, a: &[Arg]) {
         "mbi" | "mbiwalk" | "mbinull" | "iters" => dom_mbi::run(ctx, dom, a),
         "hdr" | "hdrwalk" | "hdrnull" | "find" | "cksum" => dom_hdr::run(ctx, dom, a),
         "cast" => dom_cast::run(ctx, a),
+        // the constructors and builders exist with the crates' `builder` feature only
+        #[cfg(feature = "builder")]
+        "ctor" | "hctor" | "build" | "hbuild" | "newboxed" | "clone" => dom_build::run(ctx, dom, a),
+        #[cfg(not(feature = "builder"))]
+        "ctor" | "hctor" | "build" | "hbuild" | "newboxed" | "clone" => ctx.out.push("SKIP".into()),
         _ => ctx.out.push("BADDOMAIN".into()),
     }
 }
